@@ -35,7 +35,14 @@ type routeCase struct {
 	St     []string `json:"st"`    // per partition: P | A | I
 	Route  []int    `json:"route"` // per key class: partition or -1 (no active partition)
 	KbpErr bool     `json:"kbpErr"`
-	Kbp    []struct {
+	// snapshot queries (PartitionRingOps: IdsInState, ShardSize, BatchInstancesCount, KeysByPartition of no keys)
+	KbpEmptyErr bool             `json:"kbpEmptyErr"`
+	Ids         map[string][]int `json:"ids"`   // state -> partition ids
+	All         []int            `json:"all"`   // ids in the ring
+	Shard       []int            `json:"shard"` // ShuffleShardSize for sizes -1 .. n+1
+	BatchCount  int              `json:"batchCount"`
+	BatchRF     int              `json:"batchRF"`
+	Kbp         []struct {
 		P       int   `json:"p"`
 		Classes []int `json:"classes"`
 	} `json:"kbp"`
@@ -146,6 +153,7 @@ func (rp *replayer) route(line []byte) error {
 				return
 			}
 			batch := ring.NewActivePartitionBatchRing(pr)
+			rp.snapshot(&c, pr, batch)
 			var allKeys []uint32
 			var classOfKey []int
 			for k := 0; k < nk; k++ {
@@ -169,6 +177,14 @@ func (rp *replayer) route(line []byte) error {
 					}
 					// the DoBatchRing view of the same lookup
 					rs, berr := batch.Get(key, ring.Write, nil, nil, nil)
+					if k%2 == 1 { // the caller-provided buffer path of the same lookup
+						buf := make([]ring.InstanceDesc, 0, 3)
+						rs2, berr2 := batch.Get(key, ring.Read, buf, nil, nil)
+						if (berr2 != nil) != (berr != nil) || (berr == nil && (len(rs2.Instances) != 1 || rs2.Instances[0].Id != rs.Instances[0].Id || rs2.MaxErrors != 0 || rs2.MaxUnavailableZones != 0)) {
+							res.Mismatch(abs.Mismatch{Sig: routeSig("batch-get-buf", &c, k, key), Case: c,
+								Got: map[string]any{"key": key, "set": rs2, "err": fmt.Sprint(berr2)}, Want: map[string]any{"set": rs, "err": fmt.Sprint(berr)}})
+						}
+					}
 					if (berr != nil) != (gerr != nil) || (berr == nil && (len(rs.Instances) != 1 || rs.Instances[0].Id != fmt.Sprint(got))) {
 						res.Mismatch(abs.Mismatch{Sig: routeSig("batch-get", &c, k, key), Case: c,
 							Got: map[string]any{"key": key, "set": rs, "err": fmt.Sprint(berr)}, Want: map[string]any{"partition": got, "err": fmt.Sprint(gerr)}})
@@ -229,6 +245,91 @@ func (rp *replayer) route(line []byte) error {
 	}
 }
 
+// snapshot compares the query API of one PartitionRing snapshot with the specification's IdsInState /
+// ShardSize / BatchInstancesCount / KeysByPartition(no keys).
+func (rp *replayer) snapshot(c *routeCase, pr *ring.PartitionRing, batch *ring.ActivePartitionBatchRing) {
+	res := rp.res
+	same := func(want []int, got []int32) bool {
+		w := append([]int(nil), want...)
+		sort.Ints(w)
+		if len(w) != len(got) {
+			return false
+		}
+		for i := range w {
+			if int32(w[i]-1) != got[i] {
+				return false
+			}
+		}
+		return true
+	}
+	bad := func(what string, got, want any) {
+		res.Mismatch(abs.Mismatch{Sig: "snapshot:" + what, Case: c, Got: got, Want: want})
+	}
+	if got := pr.PartitionIDs(); !same(c.All, got) {
+		bad("PartitionIDs", got, c.All)
+	}
+	if got := pr.PendingPartitionIDs(); !same(c.Ids["P"], got) {
+		bad("PendingPartitionIDs", got, c.Ids["P"])
+	}
+	if got := pr.ActivePartitionIDs(); !same(c.Ids["A"], got) {
+		bad("ActivePartitionIDs", got, c.Ids["A"])
+	}
+	if got := pr.InactivePartitionIDs(); !same(c.Ids["I"], got) {
+		bad("InactivePartitionIDs", got, c.Ids["I"])
+	}
+	if got := pr.PartitionsCount(); got != len(c.All) {
+		bad("PartitionsCount", got, len(c.All))
+	}
+	if got := pr.ActivePartitionsCount(); got != len(c.Ids["A"]) {
+		bad("ActivePartitionsCount", got, len(c.Ids["A"]))
+	}
+	maxID := -1
+	for _, p := range c.All {
+		maxID = max(maxID, p-1)
+	}
+	if got := pr.MaxPartitionID(); int(got) != maxID {
+		bad("MaxPartitionID", got, maxID)
+	}
+	var ids []int32
+	for _, p := range pr.Partitions() {
+		ids = append(ids, p.Id)
+		if want := pstate(c.St[p.Id]); p.State != want {
+			bad("Partitions state", p.State.String(), want.String())
+		}
+	}
+	sort.Slice(ids, func(a, b int) bool { return ids[a] < ids[b] })
+	if !same(c.All, ids) {
+		bad("Partitions", ids, c.All)
+	}
+	for j, want := range c.Shard {
+		size := j - 1
+		if got := pr.ShuffleShardSize(size); got != want {
+			bad(fmt.Sprintf("ShuffleShardSize size%s", map[bool]string{true: "<=0", false: ">0"}[size <= 0]), map[string]int{"size": size, "got": got}, want)
+		}
+		// ... and it is the number of partitions ShuffleShard(size) really returns
+		if sub, err := pr.ShuffleShard("tenant-s", size); err != nil || sub.PartitionsCount() != want {
+			bad("ShuffleShard count", map[string]any{"size": size, "got": fmt.Sprint(sub), "err": fmt.Sprint(err)}, want)
+		}
+	}
+	if got := batch.InstancesCount(); got != c.BatchCount {
+		bad("batch InstancesCount", got, c.BatchCount)
+	}
+	if got := batch.ReplicationFactor(); got != c.BatchRF {
+		bad("batch ReplicationFactor", got, c.BatchRF)
+	}
+	groups, err := batch.GetKeysByPartition(context.Background(), nil)
+	if c.KbpEmptyErr != errors.Is(err, ring.ErrNoActivePartitionFound) || (err == nil) == c.KbpEmptyErr || len(groups) != 0 {
+		bad("kbp no keys", map[string]any{"groups": groups, "err": fmt.Sprint(err)}, map[string]any{"err": c.KbpEmptyErr})
+	}
+	// a cancelled caller gets an error, never a partial grouping (the no-active error wins: it is tested first)
+	cctx, cancel := context.WithCancel(context.Background())
+	cancel()
+	groups, err = batch.GetKeysByPartition(cctx, []uint32{0, 1})
+	if err == nil || len(groups) != 0 || c.KbpEmptyErr != errors.Is(err, ring.ErrNoActivePartitionFound) {
+		bad("kbp cancelled", map[string]any{"groups": groups, "err": fmt.Sprint(err)}, "an error and no groups")
+	}
+}
+
 // ---------------------------------------------------------------------------------------------
 // replication sets, spec -> code
 
@@ -251,11 +352,12 @@ type replSetJ struct {
 }
 
 type replCase struct {
-	Mode    string                     `json:"mode"`
-	NP      int                        `json:"np"`
-	OwnerOf []int                      `json:"ownerOf"`
-	Inst    []instJ                    `json:"inst"`
-	Res     map[string]json.RawMessage `json:"res"`
+	Mode     string                     `json:"mode"`
+	NP       int                        `json:"np"`
+	OwnerOf  []int                      `json:"ownerOf"`
+	Inst     []instJ                    `json:"inst"`
+	OwnersOf [][]int                    `json:"ownersOf"` // per partition: OwnersOfPartition (owner numbers)
+	Res      map[string]json.RawMessage `json:"res"`
 }
 
 type replWant struct {
@@ -291,7 +393,13 @@ func (s staticReader) PartitionRing() *ring.PartitionRing { return s.r }
 var opByName = map[string]ring.Operation{"Write": ring.Write, "Read": ring.Read, "Reporting": ring.Reporting}
 
 // instName: lexicographic order = owner order, numeric suffix = idx (what the multi variant parses).
-func instName(o int, idx int) string { return fmt.Sprintf("m%d-%d", o, idx) }
+// idx 9 (NoIdx of the specification) = a name without a numeric suffix, which ranks above every number.
+func instName(o int, idx int) string {
+	if idx == 9 {
+		return fmt.Sprintf("m%d-x", o)
+	}
+	return fmt.Sprintf("m%d-%d", o, idx)
+}
 
 func idsOf(rs ring.ReplicationSet) []string {
 	out := []string{}
@@ -377,6 +485,7 @@ func (rp *replayer) repl(line []byte) error {
 					res.Fatal = "NewPartitionRing: " + err.Error()
 					return
 				}
+				rp.owners(&c, pr, names)
 				ir, stop, err := abs.NewRing(idesc, ring.Config{ReplicationFactor: 1, HeartbeatTimeout: time.Hour, SubringCacheDisabled: true})
 				if err != nil {
 					res.Fatal = "NewRing: " + err.Error()
@@ -525,6 +634,49 @@ func (rp *replayer) repl(line []byte) error {
 				return errors.New(res.Fatal)
 			}
 			return nil
+		}
+	}
+}
+
+// owners compares the owner lists of a snapshot with the specification's OwnersOfPartition: PartitionOwnerIDs,
+// its copy, and MultiPartitionOwnerIDs (suffix stripped) with no buffer, a large one and one that is too small.
+func (rp *replayer) owners(c *replCase, pr *ring.PartitionRing, names []string) {
+	for p := 1; p <= c.NP && p <= len(c.OwnersOf); p++ {
+		var full, stripped []string
+		os := append([]int(nil), c.OwnersOf[p-1]...)
+		sort.Ints(os)
+		for _, o := range os {
+			id := names[o]
+			if c.Mode == "multi" {
+				id = fmt.Sprintf("%s/%d", names[o], p-1)
+			}
+			full = append(full, id)
+			stripped = append(stripped, names[o])
+		}
+		bad := func(what string, got, want any) {
+			rp.res.Mismatch(abs.Mismatch{Sig: fmt.Sprintf("owners:%s mode=%s n=%d", what, c.Mode, min(len(full), 2)), Case: c, Got: got, Want: want})
+		}
+		if got := pr.PartitionOwnerIDs(int32(p - 1)); !sameStrings(got, full) {
+			bad("PartitionOwnerIDs", got, full)
+		}
+		cp := pr.PartitionOwnerIDsCopy(int32(p - 1))
+		if !sameStrings(cp, full) {
+			bad("PartitionOwnerIDsCopy", cp, full)
+		}
+		if len(cp) > 0 { // a copy: scribbling on it must not reach the snapshot
+			cp[0] = "scribble"
+			if got := pr.PartitionOwnerIDs(int32(p - 1)); !sameStrings(got, full) {
+				bad("PartitionOwnerIDsCopy aliases the snapshot", got, full)
+			}
+		}
+		for _, buf := range [][]string{nil, make([]string, 0, 8), make([]string, 1, 1), make([]string, 5)} {
+			got := pr.MultiPartitionOwnerIDs(int32(p-1), buf)
+			if !sameStrings(got, stripped) {
+				bad(fmt.Sprintf("MultiPartitionOwnerIDs cap=%d", cap(buf)), got, stripped)
+			}
+		}
+		if got := pr.PartitionOwnerIDs(int32(p - 1)); !sameStrings(got, full) {
+			bad("MultiPartitionOwnerIDs changed the snapshot", got, full)
 		}
 	}
 }
